@@ -4,6 +4,7 @@ import Ztr.Model.Layers
 import Ztr.Model.Shuffle
 import Ztr.Model.Digraph
 import Ztr.Model.Channel
+import Ztr.Model.Suites
 /-!
 Line protocol between the Python harness and the executable model: one JSON object per line in,
 one JSON object per line out.  `op` selects the model component.  Unknown or malformed requests are
@@ -106,6 +107,78 @@ def opChildReport (j : Json) : Except String Json := do
   return Json.mkObj [("bytes", jNats (Ztr.Channel.childReport ran f e)),
     ("pyws", jNats Ztr.Channel.pyWhitespace)]
 
+def optInt (j : Json) (k : String) : Except String (Option Int) := do
+  match j.getObjVal? k with
+  | .ok Json.null => return none
+  | .ok v => return some (← v.getInt?)
+  | .error _ => return none
+
+def optNat (j : Json) (k : String) : Except String (Option Nat) := do
+  match j.getObjVal? k with
+  | .ok Json.null => return none
+  | .ok v => return some (← v.getNat?)
+  | .error _ => return none
+
+partial def suiteOf (j : Json) : Except String Ztr.Suites.Suite := do
+  let t ← J.str! j "t"
+  match t with
+  | "leaf" => return .leaf (← J.nat! j "id") (← optInt j "lvl") (← optNat j "lyr")
+  | "startup" => return .startup (← J.nat! j "id")
+  | "node" =>
+    let kids ← J.arr! j "kids"
+    let ks ← kids.toList.mapM suiteOf
+    return .node (← optInt j "lvl") (← optNat j "lyr") ks
+  | _ => throw s!"bad suite tag {t}"
+
+def jOptNat : Option Nat → Json
+  | none => Json.null
+  | some n => Json.num (JsonNumber.fromNat n)
+
+/-- `suites`: tests_from_suite per suite and the find_tests grouping -/
+def opSuites (j : Json) : Except String Json := do
+  let ss ← (← J.arr! j "suites").toList.mapM suiteOf
+  let atLevel ← J.int! j "at_level"
+  let only ← optInt j "only_level"
+  let accepted ← J.nats! j "accepted"
+  let unit ← J.nat! j "unit"
+  let acc : Nat → Bool := fun t => accepted.contains t
+  let per := ss.map (Ztr.Suites.testsFromSuite atLevel only acc unit)
+  let groups := Ztr.Suites.findTests atLevel only acc unit ss
+  return Json.mkObj [
+    ("per_suite", Json.arr (per.map (fun l => Json.arr (l.map (fun (t, y) => Json.arr #[Json.num (JsonNumber.fromNat t), jOptNat y])).toArray)).toArray),
+    ("groups", Json.arr (groups.map (fun (k, ts) => Json.arr #[jOptNat k, jNats ts])).toArray)]
+
+/-- `normalize`: option normalisation of get_options; pattern 0 is the unit-layer pattern -/
+def opNormalize (j : Json) : Except String Json := do
+  let all ← J.bool! j "all"
+  let atLevel ← J.int! j "at_level"
+  let only ← optInt j "only_level"
+  let unit ← J.bool! j "unit"
+  let nonUnit ← J.bool! j "non_unit"
+  let negs ← J.bools! j "layer_neg"
+  let layer := negs.zipIdx.map (fun (b, i) => (b, i + 1))
+  let o : Ztr.Suites.Opts Nat := { all := all, atLevel := atLevel, onlyLevel := only, unit := unit, nonUnit := nonUnit, layer := layer }
+  let n := Ztr.Suites.normalize 0 o
+  return Json.mkObj [("at_level", jInt n.atLevel), ("unit", Json.bool n.unit), ("non_unit", Json.bool n.nonUnit),
+    ("layer", Json.arr (n.layer.map (fun (b, p) => Json.arr #[Json.bool b, Json.num (JsonNumber.fromNat p)])).toArray)]
+
+/-- `layer_kept`: Filter.global_setup's layer selection.  Layers are indices; `match[p][n]` is the
+regex result of pattern p on layer n. -/
+def opLayerKept (j : Json) : Except String Json := do
+  let negs ← J.bools! j "layer_neg"
+  let rows ← (← J.arr! j "match").toList.mapM (fun (r : Json) => do
+    (← r.getArr?).toList.mapM (fun x => x.getBool?))
+  let dots ← J.bools! j "dot"
+  let units ← J.bools! j "is_unit"
+  let nonUnit ← J.bool! j "non_unit"
+  let resume ← optNat j "resume"
+  let layer := negs.zipIdx.map (fun (b, i) => (b, i))
+  let o : Ztr.Suites.Opts Nat := { all := false, atLevel := 1, onlyLevel := none, unit := false, nonUnit := nonUnit, layer := layer }
+  let m : Nat → Nat → Bool := fun p n => (rows.getD p []).getD n false
+  let kept := (List.range units.length).map (fun n =>
+    Ztr.Suites.layerKept m (fun n => dots.getD n false) (fun n => units.getD n false) o resume n)
+  return Json.mkObj [("kept", Json.arr (kept.map Json.bool).toArray)]
+
 def dispatch (j : Json) : Except String Json := do
   let op ← J.str! j "op"
   match op with
@@ -113,6 +186,9 @@ def dispatch (j : Json) : Except String Json := do
   | "layers" => opLayers j
   | "shuffle" => opShuffle j
   | "sccs" => opSccs j
+  | "suites" => opSuites j
+  | "normalize" => opNormalize j
+  | "layer_kept" => opLayerKept j
   | "channel_parse" => opChannelParse j
   | "child_report" => opChildReport j
   | _ => throw s!"unknown op {op}"
